@@ -9,6 +9,7 @@ G3 end to end: the C01 oracle re-run through the stand-in solver under all five 
 """
 
 import itertools
+import json
 
 from checks import c01, c02
 from vlib import fakesolver, refsem, sexp
@@ -345,7 +346,31 @@ def check_e2e(case):
     try:
         if sub:
             cspuz.config.backend_path = c02.FAKE_SUGAR
-            c01.run_program(case["program"], backend=name)
+            if case.get("timeout"):
+                # the branch of run_subprocess that is taken when a timeout is configured and psutil is
+                # installed (psutil is not available offline: a stand-in module, only consulted when the
+                # timeout expires, which it does not here)
+                import types
+                from cspuz.backend import _subproc
+
+                saved_t = (cspuz.config.solver_timeout, getattr(_subproc, "_PSUTIL_AVAILABLE", None),
+                           getattr(_subproc, "psutil", None))
+                cspuz.config.solver_timeout = 600.0
+                _subproc._PSUTIL_AVAILABLE = True
+                _subproc.psutil = types.ModuleType("psutil")
+                import os
+                os.environ["FAKE_SUGAR_STDERR"] = "1"   # the stand-in then also writes diagnostics to stderr
+                try:
+                    c01.run_program(case["program"], backend=name)
+                finally:
+                    os.environ.pop("FAKE_SUGAR_STDERR", None)
+                    cspuz.config.solver_timeout, _subproc._PSUTIL_AVAILABLE = saved_t[0], saved_t[1]
+                    if saved_t[2] is None:
+                        del _subproc.psutil
+                    else:
+                        _subproc.psutil = saved_t[2]
+            else:
+                c01.run_program(case["program"], backend=name)
         else:
             with backend_env(name):
                 c01.run_program(case["program"], backend=name)
@@ -500,9 +525,9 @@ def shard(arg):
         st.case(canon=case, nontrivial=True, classes=["e2e", "e2e:" + case["backend"]])
 
     def b_sub(case):
-        case = dict(case, subprocess=True)
+        case = dict(case, subprocess=True, timeout=bool(len(json.dumps(case, default=repr)) % 2))
         body(case)
-        st.case(canon=case, nontrivial=True, classes=["e2e-real-subprocess"])
+        st.case(canon=case, nontrivial=True, classes=["e2e-real-subprocess"] + (["e2e-real-subprocess:timeout-configured"] if case["timeout"] else []))
 
     hyp_search(st, strat["emission"], b_em, seed=seed, max_examples=n_em, check="c03.emission")
     hyp_search(st, strat["reply"], b_rep, seed=seed + 1, max_examples=n_rep, check="c03.reply")
